@@ -2301,7 +2301,9 @@ class CIMInstanceName(_CIMComparisonMixin, SlottedPickleMixin):
         keybindings = NocaseDict()
 
         for prop in class_.properties:
-            if 'key' in class_.properties[prop].qualifiers:
+            key_qual = class_.properties[prop].qualifiers.get('key', None)
+            # The Key qualifier may be specified with a value of false
+            if key_qual is not None and key_qual.value:
                 pname = class_.properties[prop].name  # get original name
 
                 if prop in instance:
